@@ -347,8 +347,19 @@ pub fn dump_coq(d: &Dump) -> String {
 pub fn snap_coq(s: &Snapshot) -> String {
     clist(s.iter(), |(k, d, p)| format!("({}, {}, {})", chex(k.as_bytes()), dump_coq(d), cz(*p)))
 }
+fn esc(b: &[u8]) -> String { format!("\"{}\"", b.escape_ascii()) }
+pub fn dump_text(d: &Dump) -> String {
+    match d {
+        Dump::S(b) => format!("string {}", esc(b)),
+        Dump::L(v) => format!("list [{}]", v.iter().map(|b| esc(b)).collect::<Vec<_>>().join(", ")),
+        Dump::T(v) => format!("set {{{}}}", v.iter().map(|b| esc(b)).collect::<Vec<_>>().join(", ")),
+        Dump::H(v) => format!("hash {{{}}}", v.iter().map(|(f, x)| format!("{}: {}", esc(f), esc(x))).collect::<Vec<_>>().join(", ")),
+        Dump::Z(v) => format!("zset [{}]", v.iter().map(|(m, s)| format!("{}: {}", esc(m), s)).collect::<Vec<_>>().join(", ")),
+        Dump::X(t) => format!("UNREADABLE ({})", t),
+    }
+}
 pub fn snap_json(s: &Snapshot) -> serde_json::Value {
-    serde_json::Value::Array(s.iter().map(|(k, d, p)| serde_json::json!({"key": k, "value": format!("{:?}", d), "pttl": p})).collect())
+    serde_json::Value::Array(s.iter().map(|(k, d, p)| serde_json::json!({"key": k, "value": dump_text(d), "pttl": p})).collect())
 }
 
 // ------------------------------------------------------------------ generators
@@ -667,4 +678,22 @@ pub fn laws(c: &MCmd, r: &RespValue, before: &Snapshot, after: &Snapshot, now: u
         _ => {}
     }
     out
+}
+
+/// replay helper: asks the Coq model where it disagrees with the implementation on one case
+/// (Corr/C01.v `explain`: index of the first disagreeing step, the model's reply there, and whether
+/// the keyspace snapshot agreed) and prints coqc's answer.
+pub fn explain_with_model(dir: &std::path::Path, header: &str, term: &str) {
+    let root = std::env::var("VERIF_ROOT").unwrap_or_else(|_| "/verif".to_string());
+    let src = format!("{}\nDefinition the_case := {}.\nEval vm_compute in (check the_case).\nEval vm_compute in (explain the_case).\nEval vm_compute in (match explain the_case with Some (i, _, _) => nth_error the_case (N.to_nat i) | None => None end).\n", header, term);
+    let p = dir.join("explain.v");
+    if std::fs::write(&p, src).is_err() { return; }
+    match std::process::Command::new("coqc").args(["-Q", &format!("{}/coq", root), "RV", "-w", "none", "explain.v"]).current_dir(dir).output() {
+        Ok(o) => {
+            println!("---- reference model on this case (check = does the model reproduce every reply and snapshot; explain = first disagreeing step, model's reply, snapshot agrees?; then the implementation's step):");
+            println!("{}{}", String::from_utf8_lossy(&o.stdout), String::from_utf8_lossy(&o.stderr));
+        }
+        Err(e) => println!("(could not run coqc: {})", e),
+    }
+    let _ = std::fs::remove_file(dir.join("explain.vo")); let _ = std::fs::remove_file(dir.join("explain.glob")); let _ = std::fs::remove_file(dir.join(".explain.aux"));
 }
